@@ -468,8 +468,77 @@ pub fn gen_node(rng: &mut Rng, thorough: bool) -> Vec<u64> {
     let mut conn = [1u8; NPEERS];
     // a few cases carry one bulk command: tens of thousands of entries, so that the shipped
     // message limit is what splits the real send_request / send_response
-    let bulk_at = if rng.below(1000) < 8 { Some(rng.below(nops)) } else { None };
+    let bulk_at = if rng.below(1000) < (if thorough { 8 } else { 4 }) { Some(rng.below(nops)) } else { None };
+    // a third of the cases open with a scripted history of one peer (connection lost with a queue
+    // waiting, commands to a peer that is gone, parked dials, ...), random operations follow
+    let mut script: Vec<u64> = Vec::new();
+    let sp = rng.below(NPEERS as u64) as usize;
+    if rng.chance(34) {
+        // 104 / 105: a small request / response (expanded below); 8.. as in the case format;
+        // 60 / 63: the requested substream opens healthy / fails to open; 120..123: dial answers
+        script = match rng.below(12) {
+            0 => vec![104, 8, 9, 105, 60, 105],
+            1 => vec![8, 121, 104, 105, 9, 60, 104],
+            2 => vec![8, 121, 104, 11, 105, 9, 60],
+            3 => vec![10, 122, 104, 105, 8, 9, 104, 60],
+            4 => vec![8, 120, 105, 9, 104, 60],
+            5 => vec![104, 10, 63, 105, 8, 9, 105, 60],
+            6 => vec![8, 123, 105, 104, 11, 121, 104, 9, 60],
+            7 => vec![104, 60, 8, 105, 9, 105, 60],
+            8 => vec![10, 121, 105, 11, 104, 8, 9, 104, 60],
+            9 => vec![104, 8, 121, 105, 9, 60, 104],
+            10 => vec![8, 121, 104, 8, 9, 105, 60],
+            _ => vec![105, 63, 104, 8, 122, 105, 120, 104, 9, 104, 60],
+        };
+        script.reverse();
+    }
     for opi in 0..nops {
+        if let Some(sop) = script.pop() {
+            let p = sp;
+            c.push(match sop { 104 => 4, 105 => 5, 60 | 63 => 6, 120..=123 => 12, x => x });
+            c.push(p as u64);
+            match sop {
+                104 => {
+                    let n = rng.pick(&[1u64, 2, 3]);
+                    c.push(n);
+                    for _ in 0..n {
+                        let s = gen_cid(rng);
+                        put_cidspec(s.0, s.1, s.2, &s.3, &mut c);
+                        c.push(rng.below(2));
+                    }
+                }
+                105 => {
+                    let n = rng.pick(&[1u64, 2, 4]);
+                    c.push(n);
+                    for _ in 0..n {
+                        let s = gen_cid(rng);
+                        if rng.chance(50) {
+                            c.push(0);
+                            put_cidspec(s.0, s.1, s.2, &s.3, &mut c);
+                            c.push(rng.pick(&[4u64, 10, 100, 1000]));
+                        } else {
+                            c.push(1);
+                            put_cidspec(s.0, s.1, s.2, &s.3, &mut c);
+                            c.push(rng.below(2));
+                        }
+                    }
+                }
+                60 => c.extend([0, 0]),
+                63 => c.extend([3, 0]),
+                120..=123 => c.push(sop - 120),
+                _ => {}
+            }
+            // the generator's picture of the peer after the script: unknown, start afresh
+            if script.is_empty() {
+                conn[p] = 1;
+                inb[p] = false;
+                opening[p] = false;
+                out[p] = false;
+                pend[p] = 0;
+            }
+            let _ = opi;
+            continue;
+        }
         let p = rng.below(NPEERS as u64) as usize;
         let r = rng.below(100);
         // steer towards meaningful operations, keep a few misplaced ones
